@@ -592,7 +592,14 @@ package main
 (func "main.NewHooksCaller" (props C19) (noframe)
   (callsite "(*main.HooksCaller).run" 0 (requires started-fresh (and (= (. $0 pending) 0) (= (. $0 dir) hooksDir) (= (. $0 store) storeDir))))
   (ensures returns-object (=> (= err nil) (not (isnil h)))))
-(func "main.runRemoteUpgrader" (props C12) (noframe))
+; the master URL is parsed once at start-up; the upgrader goroutines rely on it being parseable (http.NewRequest's error is ignored there)
+(func "main.runRemoteUpgrader" (props C12) (noframe)
+  (ensures only-http-urls-start-an-upgrader (=> (= err nil) (urlok remote))))
+(func "main.remoteHTTPUpgrader" (props C12) (noframe)
+  (requires master-url-parses (urlok remote))
+  (loop 0 (invariant master-url-parses (urlok remote))))
+(func "main.remoteHTTPUpgrader$1" (props C12) (noframe)
+  (requires master-url-parses (urlok remote)))
 
 (func "main.NewStore"
   (props C12 C17 C18)
@@ -681,7 +688,9 @@ package main
 /*@
 ; remote hash upgrade: the master is asked to re-authenticate with the login password (old password), never to set it blindly
 (func "main.remoteHTTPUpgrade"
+  (props C12)
   (noframe)
+  (requires master-url-parses (urlok remote))
   (callsite "encoding/json.Marshal" 0
     (requires old-password-only (props C12) (and (= (. (boxed $0) Username) (. update username)) (= (. (boxed $0) OldPassword) (. update password))
                                      (= (. (boxed $0) NewPassword) "") (= (. (boxed $0) Session) "")))))
